@@ -102,6 +102,9 @@ def bad_dicts(opt: str) -> list[dict]:
     cls = getattr(pyvolutionary, gen.FIX[opt]["config_class"])
     base = cfg_dicts(opt)[1]
     out = [{**base, "population_size": "many"}]
+    req = [k for k, f in cls.model_fields.items() if f.is_required() and k in base]
+    if req:
+        out.append({k: v for k, v in base.items() if k != req[-1]})       # a required parameter is missing
     for k, v in base.items():
         if k in ("population_size", "max_cycles", "fitness_error", "early_stopping") or isinstance(v, (bool, str, dict)) or v is None:
             continue
@@ -202,14 +205,24 @@ def replay(opt: str, histories: list[list], refs: dict) -> list[dict]:
                         continue
                     d = bads[nbad % len(bads)] if x == -1 else cds[x]
                     nbad += 1 if x == -1 else 0
-                    e["d"] = -1 if x == -1 else iid(dump_cfg(C(**cds[x])))
+                    if x != -1 and (hid + len(events)) % 2 == 1:
+                        # a dictionary that only carries the required parameters: the others must take the config model's
+                        # DEFAULTS, whatever configuration the instance had before
+                        dmin = {k: v for k, v in cds[x].items() if C.model_fields[k].is_required()}
+                        try:
+                            C(**dmin)
+                            d = dmin
+                        except Exception:
+                            pass          # the defaults do not fit these required values: keep the complete dictionary
+                    want = None if x == -1 else C(**d)
+                    e["d"] = -1 if x == -1 else iid(dump_cfg(want))
                     try:
                         o.set_config_parameters(dict(d))
                         e["raised"] = ""
                     except Exception as ex:
                         e["raised"] = "ValidationError" if type(ex).__name__ == "ValidationError" else type(ex).__name__
                     e["after"] = iid(dump_cfg(o.configuration))
-                    e["equal_built"] = bool(x != -1 and o.configuration == C(**cds[x]) and type(o.configuration) is C)
+                    e["equal_built"] = bool(x != -1 and o.configuration == want and type(o.configuration) is C)
                 elif a == "Optimize":
                     if o is None:
                         continue
